@@ -14,7 +14,7 @@ OPS = {'>=': lambda a, b: a >= b, '>': lambda a, b: a > b, '=': lambda a, b: a =
 def parse_case(case):
     """'JACCARD>=-list-None' -> (M, op, l_list, r_list)"""
     import re
-    m = re.match(r'([A-Z_]+)(>=|>|=|<=|<)-(list|None)-(list|None)', case or 'JACCARD>=-None-None')
+    m = re.match(r'([A-Z_]*)(>=|>|=|<=|<)-(list|None)-(list|None)', case or 'JACCARD>=-None-None')
     return m.group(1), m.group(2), m.group(3) == 'list', m.group(4) == 'list'
 
 
@@ -167,6 +167,7 @@ def gen_driver_inputs(rng, tier, n):
 
 class _Driver(object):
     M = None
+    rounded = True          # jaccard / cosine / dice report and compare the 4-decimal value
 
     def fn(self):
         import importlib
@@ -231,6 +232,7 @@ class _Driver(object):
         T = lambda s: WhitespaceTokenizer(return_set=True).tokenize(s)
         cmp_ = OPS[op]
         t = a['t']
+        rnd = (lambda x: round(x, 4)) if self.rounded else (lambda x: x)
         lrows, rrows = lt.values.tolist(), rt.values.tolist()
         lcols, rcols = list(lt.columns), list(rt.columns)
         miss = lambda v: v is None or (isinstance(v, float) and math.isnan(v))
@@ -250,7 +252,7 @@ class _Driver(object):
                 return a['allow_empty']
             if not T(lv(i)) or not T(rv_(j)):
                 return False
-            return cmp_(s_(i, j), t) and cmp_(round(s_(i, j), 4), t)
+            return cmp_(s_(i, j), t) and cmp_(rnd(s_(i, j)), t)
 
         def may(i, j):
             if miss(lv(i)) or miss(rv_(j)):
@@ -259,12 +261,12 @@ class _Driver(object):
                 return a['allow_empty']
             if not T(lv(i)) or not T(rv_(j)):
                 return False
-            return cmp_(round(s_(i, j), 4), t)
+            return cmp_(rnd(s_(i, j)), t)
 
         def score(i, j):
             if miss(lv(i)) or miss(rv_(j)):
                 return float('nan')
-            return 1.0 if both_empty(i, j) else round(s_(i, j), 4)
+            return 1.0 if both_empty(i, j) else rnd(s_(i, j))
         dl = None if louts is None else ['lx', 'v']
         return check_rows(out.values.tolist(), list(out.columns), lrows, rrows, lcols, rcols, 'id', 'rid', dl, routs,
                           a['lp'], a['rp'], score, must, may, a['score'], with_id=True)
@@ -273,3 +275,117 @@ class _Driver(object):
 for _M in ('JACCARD', 'COSINE', 'DICE'):
     _cls = type('Driver' + _M, (_Driver,), {'M': _M})
     oracle('py_stringsimjoin.join.%s_join_py.%s_join_py' % (_M.lower(), _M.lower()))(_cls)
+oracle('py_stringsimjoin.join.overlap_coefficient_join_py.overlap_coefficient_join_py')(
+    type('DriverOVC', (_Driver,), {'M': 'OVERLAP_COEFFICIENT', 'rounded': False}))
+
+
+
+# ----------------------------------------------------------------------------- edit distance join
+def lev(a, b):
+    """Levenshtein distance (independent dynamic programme)"""
+    prev = list(range(len(b) + 1))
+    for i, ca in enumerate(a, 1):
+        cur = [i]
+        for j, cb in enumerate(b, 1):
+            cur.append(min(prev[j] + 1, cur[j - 1] + 1, prev[j - 1] + (ca != cb)))
+        prev = cur
+    return prev[-1]
+
+
+def gen_ed_inputs(rng, tier, n):
+    words = ['data', 'date', 'base', 'bass', 'database', 'datum', 'a', 'ab', 'abc', 'abd', 'xyz', 'xyzw', '', 'abcdefgh',
+             'abcdefgx', 'abxdefgh', 'bcdefgh', 'query', 'queue', 'quart']
+    for _ in range(n):
+        mk = lambda: None if rng.random() < 0.15 else rng.choice(words)
+        yield dict(l=[mk() for _ in range(rng.randint(0, 5))], r=[mk() for _ in range(rng.randint(0, 5))],
+                   t=rng.choice([0, 1, 1, 2, 2, 3, 1.5, 2.0]), allow_missing=rng.random() < 0.5,
+                   score=rng.random() < 0.6, n_jobs=rng.choice([1, 1, 2, 3, -1]), set_mode=rng.random() < 0.5,
+                   qval=rng.choice([2, 2, 3]), padding=rng.random() < 0.5, lp='l_', rp='r_', outs=rng.random() < 0.4,
+                   bad=rng.choice([None, None, None, None, 'l_key', 'r_join', 'threshold', 'tokenizer', 'ltable',
+                                   'dup_key', 'numeric_join', 'l_out']))
+
+
+@oracle('py_stringsimjoin.join.edit_distance_join_py.edit_distance_join_py')
+class EditDistanceJoin(object):
+    def inputs(self, case, rng, model, tier):
+        for a in gen_ed_inputs(rng, tier, 200 if tier != 'thorough' else 2000):
+            yield a
+
+    def check(self, case, a):
+        import math as _m
+        from py_stringmatching import QgramTokenizer, WhitespaceTokenizer
+        from py_stringsimjoin.join.edit_distance_join_py import edit_distance_join_py
+        try:
+            _, op, ll, rl = parse_case(case)
+        except Exception:
+            op, ll, rl = '<=', False, False
+        if op not in ('<=', '<', '='):
+            op = '<='
+        lt, rt = _frames(a)
+        lt0, rt0 = lt.copy(deep=True), rt.copy(deep=True)
+        tok = QgramTokenizer(qval=a['qval'], padding=a['padding'], return_set=a['set_mode'])
+        louts, routs = ((['lx', 'id', 'v', 'lx'], ['ry']) if (a['outs'] or ll) else (None, None))
+        kw = dict(l_key_attr='id', r_key_attr='rid', l_join_attr='v', r_join_attr='w', threshold=a['t'])
+        tabs = [lt, rt]
+        expect = None
+        bad = a['bad']
+        if bad == 'l_key':
+            kw['l_key_attr'] = 'nope'; expect = AssertionError
+        elif bad == 'r_join':
+            kw['r_join_attr'] = 'nope'; expect = AssertionError
+        elif bad == 'threshold':
+            kw['threshold'] = -1; expect = AssertionError
+        elif bad == 'tokenizer':
+            tok = WhitespaceTokenizer(return_set=a['set_mode']); expect = AssertionError
+        elif bad == 'ltable':
+            tabs[0] = [1, 2]; expect = TypeError
+        elif bad == 'dup_key' and len(lt) >= 2:
+            lt.loc[lt.index[1], 'id'] = lt.loc[lt.index[0], 'id']; lt0 = lt.copy(deep=True); expect = AssertionError
+        elif bad == 'numeric_join':
+            kw['r_join_attr'] = 'ry'; expect = AssertionError
+        elif bad == 'l_out':
+            louts = ['zz']; expect = AssertionError
+        try:
+            out = edit_distance_join_py(tabs[0], tabs[1], kw['l_key_attr'], kw['r_key_attr'], kw['l_join_attr'],
+                                        kw['r_join_attr'], kw['threshold'], op, a['allow_missing'], louts, routs,
+                                        a['lp'], a['rp'], a['score'], a['n_jobs'], False, tok)
+        except Exception as e:
+            if expect is None:
+                return 'valid call raised %s: %s' % (type(e).__name__, e)
+            if not isinstance(e, expect):
+                return 'expected %s, got %s: %s' % (expect.__name__, type(e).__name__, e)
+            if tok.get_return_set() != a['set_mode']:
+                return 'rejected call left the tokenizer with return_set=%r' % tok.get_return_set()
+            return None
+        if expect is not None:
+            return 'invalid argument (%s) accepted' % bad
+        if tok.get_return_set() != a['set_mode']:
+            return 'tokenizer return_set changed from %r to %r' % (a['set_mode'], tok.get_return_set())
+        if not lt.equals(lt0) or not rt.equals(rt0) or list(lt.index) != list(lt0.index):
+            return 'an input table was modified'
+        t = int(_m.floor(a['t']))
+        bag = QgramTokenizer(qval=a['qval'], padding=a['padding'], return_set=False)
+        lrows, rrows = lt.values.tolist(), rt.values.tolist()
+        lcols, rcols = list(lt.columns), list(rt.columns)
+        miss = lambda v: v is None or (isinstance(v, float) and _m.isnan(v))
+        lv = lambda i: lrows[i][lcols.index('v')]
+        rv_ = lambda j: rrows[j][rcols.index('w')]
+        cmp_ = OPS[op]
+
+        def may(i, j):
+            if miss(lv(i)) or miss(rv_(j)):
+                return a['allow_missing']
+            return cmp_(lev(lv(i), rv_(j)), t)
+
+        def must(i, j):
+            if miss(lv(i)) or miss(rv_(j)):
+                return a['allow_missing']
+            return cmp_(lev(lv(i), rv_(j)), t) and bool(set(bag.tokenize(lv(i))) & set(bag.tokenize(rv_(j))))
+
+        def score(i, j):
+            if miss(lv(i)) or miss(rv_(j)):
+                return float('nan')
+            return lev(lv(i), rv_(j))
+        dl = None if louts is None else ['lx', 'v']
+        return check_rows(out.values.tolist(), list(out.columns), lrows, rrows, lcols, rcols, 'id', 'rid', dl, routs,
+                          a['lp'], a['rp'], score, must, may, a['score'], with_id=True)
